@@ -18,7 +18,7 @@ package configf
 //@   requires st != nil && validR(readBuf)
 //@   let p0 = readBuf.buf.i
 //@   let allocbudget = 256 * len(readBuf.buf.src)
-//@   modifies *st, readBuf.buf.i, readBuf.depth
+//@   modifies *st, readBuf.rderr, readBuf.buf.i, readBuf.depth
 //@   allocates
 //@   ensures [C05] readBuf.buf.i >= p0
 //@   ensures [C05] validR(readBuf)
@@ -58,6 +58,14 @@ package configf
 //@   ensures [C04] (ok6 && err == nil) ==> st.Setdivision == (k6 == 0 ? decStrV(src, q5, 5, d0) : old(st.Setdivision))
 //@   ensures [C06] (ok5 && k6 == 2) ==> err != nil
 //@   ensures [C04] ok6 ==> (err == nil && readBuf.buf.i == q6)
+//@   site ResetDefault#0 ghost readBuf.rderr = false
+//@   site ).Read#0 ghostafter readBuf.rderr = readBuf.rderr || $ret != nil
+//@   site ).Read#1 ghostafter readBuf.rderr = readBuf.rderr || $ret != nil
+//@   site ).Read#2 ghostafter readBuf.rderr = readBuf.rderr || $ret != nil
+//@   site ).Read#3 ghostafter readBuf.rderr = readBuf.rderr || $ret != nil
+//@   site ).Read#4 ghostafter readBuf.rderr = readBuf.rderr || $ret != nil
+//@   site ).Read#5 ghostafter readBuf.rderr = readBuf.rderr || $ret != nil
+//@   ensures [C06] readBuf.rderr ==> err != nil
 //@   site ).Read#0 assert [C04] $2 == 0 && $3 == true
 //@   site ).Read#1 assert [C04] $2 == 1 && $3 == true
 //@   site ).Read#2 assert [C04] $2 == 2 && $3 == true
@@ -72,10 +80,11 @@ package configf
 //@   requires st != nil && validR(readBuf)
 //@   let p0 = readBuf.buf.i
 //@   let allocbudget = 256 * len(readBuf.buf.src)
-//@   modifies *st, readBuf.buf.i, readBuf.depth
+//@   modifies *st, readBuf.rderr, readBuf.buf.i, readBuf.depth
 //@   allocates
 //@   ensures [C05] readBuf.buf.i >= p0
 //@   ensures [C05] validR(readBuf)
+//@   ensures [C06] (readBuf.rderr && !old(readBuf.rderr)) ==> result != nil
 //@   safety [C05]
 //
 //@ func (*ConfigInfo).WriteTo
@@ -127,7 +136,7 @@ package configf
 //@   requires st != nil && validR(readBuf)
 //@   let p0 = readBuf.buf.i
 //@   let allocbudget = 256 * len(readBuf.buf.src)
-//@   modifies *st, readBuf.buf.i, readBuf.depth
+//@   modifies *st, readBuf.rderr, readBuf.buf.i, readBuf.depth
 //@   allocates
 //@   ensures [C05] readBuf.buf.i >= p0
 //@   ensures [C05] validR(readBuf)
@@ -167,6 +176,14 @@ package configf
 //@   ensures [C04] (ok6 && err == nil) ==> st.Containername == (k6 == 0 ? decStrV(src, q5, 5, d0) : "")
 //@   ensures [C06] (ok5 && k6 == 2) ==> err != nil
 //@   ensures [C04] ok6 ==> (err == nil && readBuf.buf.i == q6)
+//@   site ResetDefault#0 ghost readBuf.rderr = false
+//@   site ).Read#0 ghostafter readBuf.rderr = readBuf.rderr || $ret != nil
+//@   site ).Read#1 ghostafter readBuf.rderr = readBuf.rderr || $ret != nil
+//@   site ).Read#2 ghostafter readBuf.rderr = readBuf.rderr || $ret != nil
+//@   site ).Read#3 ghostafter readBuf.rderr = readBuf.rderr || $ret != nil
+//@   site ).Read#4 ghostafter readBuf.rderr = readBuf.rderr || $ret != nil
+//@   site ).Read#5 ghostafter readBuf.rderr = readBuf.rderr || $ret != nil
+//@   ensures [C06] readBuf.rderr ==> err != nil
 //@   site ).Read#0 assert [C04] $2 == 0 && $3 == true
 //@   site ).Read#1 assert [C04] $2 == 1 && $3 == false
 //@   site ).Read#2 assert [C04] $2 == 2 && $3 == false
@@ -181,10 +198,11 @@ package configf
 //@   requires st != nil && validR(readBuf)
 //@   let p0 = readBuf.buf.i
 //@   let allocbudget = 256 * len(readBuf.buf.src)
-//@   modifies *st, readBuf.buf.i, readBuf.depth
+//@   modifies *st, readBuf.rderr, readBuf.buf.i, readBuf.depth
 //@   allocates
 //@   ensures [C05] readBuf.buf.i >= p0
 //@   ensures [C05] validR(readBuf)
+//@   ensures [C06] (readBuf.rderr && !old(readBuf.rderr)) ==> result != nil
 //@   safety [C05]
 //
 //@ func (*GetConfigListInfo).WriteTo
